@@ -26,6 +26,10 @@ class Grammar:
         self.rules = []  # (index, modifier, doc or None, ast)
         self.order = []
         self.skip = False
+        self.names = {}
+
+    def name(self, i):
+        return self.names.get(i, "r%d" % i)
 
 
 def consuming_atom(rng, i, n):
@@ -84,7 +88,10 @@ def expr(rng, i, n, depth):
     return consuming_atom(rng, i, n)
 
 
-def build(seed):
+ODD_NAMES = ["type", "match", "loop", "mod", "fn", "self_", "gen", "Box", "Option", "rules", "generics", "pairs", "Rule", "wrapper", "unicode", "str", "usize", "r_0", "ÿ", "_x"]
+
+
+def build(seed, odd_names=False):
     rng = SplitMix(seed)
     g = Grammar()
     n = 2 + rng.below(9)
@@ -110,6 +117,14 @@ def build(seed):
         for k in range(n - 1, 0, -1):
             j = rng.below(k + 1)
             g.order[k], g.order[j] = g.order[j], g.order[k]
+    if odd_names:
+        # a separate stream, so that the structure of grammar `seed` is the same with and without odd names
+        nr = SplitMix(seed ^ 0x5EED0DD)
+        if nr.chance(1, 3):
+            pool = list(ODD_NAMES)
+            for i in range(n):
+                if pool and nr.chance(1, 3):
+                    g.names[i] = pool.pop(nr.below(len(pool)))
     return g
 
 
@@ -117,7 +132,7 @@ def esc(s):
     return s.replace("\\", "\\\\").replace('"', '\\"')
 
 
-def render_expr(e):
+def render_expr(e, g=None):
     t = e[0]
     if t == "lit":
         return '"%s"' % esc(e[1])
@@ -128,29 +143,29 @@ def render_expr(e):
     if t == "builtin":
         return e[1]
     if t == "ref":
-        return "r%d" % e[1]
+        return g.name(e[1]) if g else "r%d" % e[1]
     if t == "push":
-        return "PUSH(%s)" % render_expr(e[1])
+        return "PUSH(%s)" % render_expr(e[1], g)
     if t == "stackop":
         return e[1]
     if t == "seq":
-        return "(" + " ~ ".join(render_expr(x) for x in e[1]) + ")"
+        return "(" + " ~ ".join(render_expr(x, g) for x in e[1]) + ")"
     if t == "alt":
-        return "(" + " | ".join(render_expr(x) for x in e[1]) + ")"
+        return "(" + " | ".join(render_expr(x, g) for x in e[1]) + ")"
     if t == "opt":
-        return "(" + render_expr(e[1]) + ")?"
+        return "(" + render_expr(e[1], g) + ")?"
     if t == "star":
-        return "(" + render_expr(e[1]) + ")*"
+        return "(" + render_expr(e[1], g) + ")*"
     if t == "plus":
-        return "(" + render_expr(e[1]) + ")+"
+        return "(" + render_expr(e[1], g) + ")+"
     if t == "rep":
         _, b, kind, a, c = e
         form = ["{%d}" % a, "{%d,}" % a, "{,%d}" % c, "{%d,%d}" % (a, c)][kind]
-        return "(" + render_expr(b) + ")" + form
+        return "(" + render_expr(b, g) + ")" + form
     if t == "pos":
-        return "&" + render_expr(e[1])
+        return "&" + render_expr(e[1], g)
     if t == "neg":
-        return "!" + render_expr(e[1])
+        return "!" + render_expr(e[1], g)
     raise ValueError(t)
 
 
@@ -160,12 +175,12 @@ def render(g):
         _, mod, doc, body = g.rules[i]
         if doc:
             lines.append(doc)
-        lines.append("r%d = %s{ %s }" % (i, mod, render_expr(body)))
+        lines.append("%s = %s{ %s }" % (g.name(i), mod, render_expr(body, g)))
     return "\n".join(lines) + "\n"
 
 
 def grammar(seed):
-    return render(build(seed))
+    return render(build(seed, odd_names=True))
 
 
 def sample_expr(g, e, rng, depth, stack, sep):
